@@ -143,7 +143,7 @@ func runLoadCfg(cs string) string {
 		cfg.DomainSets = append(cfg.DomainSets, router.DomainSetConfig{Tag: d, Files: []string{dsFile}})
 	}
 	for _, r := range rules {
-		cfg.Rules = append(cfg.Rules, router.RuleConfig{Domain: r.d, Forward: r.f, Reject: uint16(r.reject)})
+		cfg.Rules = append(cfg.Rules, router.RuleConfig{Domain: r.d, Forward: r.f, Reject: int(r.reject)})
 	}
 	v, err := router.VerifRun(cfg)
 	if err != nil {
